@@ -49,6 +49,8 @@ type in struct {
 	T     int64    `json:"t,omitempty"`
 	Tbl   []tfield `json:"tbl,omitempty"`
 	Lits  []ctxLit `json:"lits,omitempty"`
+	Z     int64    `json:"z,omitempty"`
+	Rest  string   `json:"rest_hex,omitempty"`
 }
 
 var L *lua.LState
@@ -324,6 +326,40 @@ func runCase(w *lib.Writer, c in, kf ...string) {
 		kc.Observed = obsNum(f, ok)
 		kc.Coq = fmt.Sprintf("CNumB %d %s %s", c.Base, lib.CoqBytes(s), coqOF(f, ok))
 		kc.Nontrivial = true
+	case "numberr":
+		_, errs, pan := callFn(global("tonumber"), lua.LString(string(s)), lua.LNumber(c.Base))
+		if pan != "" {
+			w.GoFail(id, "Go panic escaped from tonumber(s, base): "+pan)
+		}
+		kc.Observed = map[string]any{"raised": errs != "", "error": errs}
+		kc.Coq = fmt.Sprintf("CNumBErr %s %s %s", lib.CoqZ(int64(c.Base)), lib.CoqBytes(s), lib.CoqBool(errs != ""))
+		kc.Nontrivial = true
+	case "numbn":
+		res, errs, pan := callFn(global("tonumber"), lua.LNumber(c.Z), lua.LNumber(c.Base))
+		if pan != "" || errs != "" {
+			w.GoFail(id, "tonumber(number, base) raised: "+errs+pan)
+		}
+		f, ok := oneNumber(res)
+		kc.Observed = obsNum(f, ok)
+		kc.Coq = fmt.Sprintf("CNumBN %s %d %s", lib.CoqZ(c.Z), c.Base, coqOF(f, ok))
+		kc.Nontrivial = true
+	case "numthen":
+		rest := unhex(c.Rest)
+		var v []byte
+		ok := false
+		pan := protect(func() {
+			sc := parse.NewScanner(strings.NewReader(string(s)+string(rest)), "case")
+			tok, err := sc.Scan(&parse.Lexer{})
+			if err == nil && tok.Type == parse.TNumber {
+				v, ok = []byte(tok.Str), true
+			}
+		})
+		if pan != "" {
+			w.GoFail(id, "Go panic escaped from Scanner.Scan: "+pan)
+		}
+		kc.Observed = obsBytes(v, ok)
+		kc.Coq = fmt.Sprintf("CNumThen %s %s %s", lib.CoqBytes(s), lib.CoqBytes(rest), coqOBytes(v, ok))
+		kc.Nontrivial = len(rest) > 0
 	case "tostr":
 		bits, _ := strconv.ParseUint(c.Bits, 10, 64)
 		x := math.Float64frombits(bits)
